@@ -74,6 +74,9 @@ var (
 		member{"S", "OptS", "", stc("map", fo("A", shStr), fd("C", shStr))},
 		member{"T", "OptT", "", stc("tuple", fd("X", shInt), fo("Y", shInt))},
 		member{"N", "Int", "", shInt})
+	shUKMAlt = uni("kinded",
+		member{"N", "Int", "", shInt},
+		member{"S", "String", "", shStr})
 	shMood  = &shape{kind: "enum", repr: "string", enum: map[string]interface{}{"Happy": "happy", "Sad": "sad"}}
 	shLevel = &shape{kind: "enum", repr: "int", enum: map[string]interface{}{"Low": int64(1), "High": int64(2)}}
 	fiveOpt = []fld{fo("A", shInt), fo("B", shInt), fo("C", shInt), fo("D", shInt), fo("E", shInt)}
@@ -136,6 +139,7 @@ var shapes = map[string]*shape{
 	"HasMapAny":    stc("map", fd("M", mpo(shAny))),
 	"HasMapN":      stc("map", fd("M", &shape{kind: "map", elem: shInt, elemNul: true}), fd("LL", lst(lst(shStr, false), false)), fn("NL", lst(shInt, false))),
 	"HasMapOpt":    stc("map", fd("M", mpo(stc("map", fo("A", shStr), fd("L", lst(shInt, false)), fd("M", mpo(shInt)))))),
+	"HasUKMAlt":    stc("map", fd("A", shUKMAlt), fd("B", shUKMAlt)),
 	"RawOptB":      stc("map", fo("A", shBytes), fn("B", shBytes), fd("C", shBytes), fd("Z", shInt)),
 	"OptColl":      stc("map", fo("L", lst(shStr, false)), fn("B", shBytes), fo("M", mpo(shInt)), fn("NL", lst(shInt, false)), fo("OB", shBytes), fd("Z", shInt)),
 	"HasUKM":       stc("map", fd("A", shUKM), fd("B", shUKM), fd("C", shUKM), fd("D", shUKM)),
